@@ -164,6 +164,22 @@ def c14(prop, tier, seed):
     return r
 
 
+def c02(prop, tier, seed):
+    # "the caller gets the handler's response untouched" in a custom-typed contract goes through IntoMsg / IntoResponse:
+    # the V units of C11 are obligations of C02 as well
+    r = REGISTRY["C02_G"](prop, tier, seed)
+    try:
+        obs, infos = run_v_units(prop, ["into_response.staking", "into_response.staking+stargate+cosmwasm_2_0"])
+    except Undecided as u:
+        try:
+            obs, infos = bounded_standin(prop, str(u), [("into_response.native", "replay_c11", []), ("into_response.native.stargate", "replay_c11", ["stargate", "cosmwasm_2_0"])])
+        except Undecided as u2:
+            obs, infos = [Ob("%s.V.into_response" % prop, "V", "undecided", str(u2)[:600])], []
+    r["obs"] = obs + r["obs"]; r["infos"] = infos + r["infos"]
+    r["assumptions"] = r["assumptions"] + V_ASSUMPTIONS["into_response"]
+    return r
+
+
 def c20(prop, tier, seed):
     r = REGISTRY["C20_K"](prop, tier, seed)
     und = [o for o in r["obs"] if o.status == "undecided"]
@@ -193,7 +209,8 @@ def c10(prop, tier, seed):
 REGISTRY = {
     "C01": g_prop("C01 on the fixture corpus: for every generated message variant, the recording Serializer sees variant = method name, fields = argument names in order, values = arguments (all values symbolic); constructors build the literal; {own name: own fields} decodes back to an equal message; for every ASCII key up to 12 bytes a message type decodes to variant i only if key = name_i (wildcard-free match = exact variant set).",
                   uncovered=["struct->JSON text (serde_json)", "argument types beyond integer scalars"]),
-    "C02": g_prop("C02 on the fixture corpus: for every handler of every kind, dispatching its variant (directly and through the contract-level wrapper) runs exactly that handler once (call counters), with every field value at the parameter of the same name (incl. an 11-parameter handler and two same-typed parameters), the caller's storage/api reached, env.block.height and sender passed through, the handler's Err converted by Into, its Ok response untouched, and for a query the JSON of the returned value.",
+    "C02": c02,
+    "C02_G": g_prop("C02 on the fixture corpus: for every handler of every kind, dispatching its variant (directly and through the contract-level wrapper) runs exactly that handler once (call counters), with every field value at the parameter of the same name (incl. an 11-parameter handler and two same-typed parameters), the caller's storage/api reached, env.block.height and sender passed through, the handler's Err converted by Into, its Ok response untouched, and for a query the JSON of the returned value.",
                   uncovered=["funds other than empty", "querier pass-through"]),
     "C03": g_prop("C03 on the fixture corpus: (i) published name lists equal the wire names, (ii) the contract-level wrapper serialises exactly as the wrapped part (recording Serializer), (iii) wrapper dispatch routes each part's message to that part's handler; exact set of wrapper parts (wildcard-free match).",
                   uncovered=["the wrapper's hand-written Deserialize (accept iff exactly one part accepts; error text; no panic): CBMC does not finish on serde_cw_value's BTreeMap (DESIGN.md §2.4)"]),
